@@ -3,11 +3,14 @@
 From Coq Require Import List NArith ZArith Bool.
 From Coq.Strings Require Import Byte.
 From Coq Require Extraction ExtrOcamlBasic.
-From L3 Require Ber BerFixed BerInt Utf8 Frame FrameSpec FrameFixed.
+From L3 Require Ber BerFixed BerInt Utf8 Frame FrameSpec FrameFixed Filter Escape Dn Entry Result UrlParams.
 Extraction Language OCaml.
 Extraction "model.ml"
   Byte.to_N Byte.of_N
   Ber.encode Ber.parse_tag Ber.byte_of_N
   BerFixed.parse_tag' BerFixed.lim BerFixed.nolim BerFixed.tdepth
   BerInt.int_octets BerInt.int_octets_cur BerInt.bool_octets
-  Utf8.valid FrameFixed.decode_inner' FrameFixed.repaired_d FrameSpec.framed_run_buf.
+  Utf8.valid FrameFixed.decode_inner' FrameFixed.repaired_d FrameSpec.framed_run_buf
+  Filter.parse Escape.ldap_escape Escape.ldap_unescape Dn.dn_escape Entry.construct
+  Result.result_of_tree Result.success Result.non_error Result.cmp_equal Result.cmp_non_error
+  UrlParams.get_url_params.
